@@ -254,7 +254,10 @@ def check_property(pid, tier, seed):
     if faults:
         return 3
     if baseline is not None:
-        missing = sorted(n for n in baseline if n not in set(all_names))
+        # names of safety sites and of call-site preconditions follow the incidental structure of the code (ordinals of divisions, subscripts, calls):
+        # a harmless refactoring renumbers them.  Only clauses named by the sidecar (ensures, invariants, steps, variants, frames, result types, lemmas) must
+        # still be generated.
+        missing = sorted(n for n in baseline if n not in set(all_names) and "/safety/" not in n and "/call#" not in n)
         if missing and not undecided:
             print(f"CHECKER-FAULT obligations of the baseline are no longer generated: {missing[:5]} ...")
             return 3
